@@ -52,3 +52,9 @@ add('C20', 'property-based testing (Hypothesis + covering matrix) with a referen
     'compression, signature multiset, signatures still verify); foreign messages with old/partial/indeterminate headers and each compression must import with identical content.',
     'Trusted: refpgp.grammar/wire, zlib/bz2 (shared). Signature validity of text-format literals is decided in C02.',
     'DESIGN.md 4/C20')
+add('C11', 'property-based testing over an adversarial line alphabet (Hypothesis + covering matrix) with round-trip, an independent section-7 reader/canonicaliser/verifier, and reference-signed cleartext messages',
+    'Texts assembled from 27 adversarial line kinds x LF/CRLF/lone-CR endings x final newline or not, 6 hashes, 1-3 signers of 4 algorithms, transported as str / UTF-8 bytes / CRLF: '
+    'reload gives the same text and signature octets and verifies; the reference reader confirms dash-escaping and the Hash: header; the reference canonicaliser (CRLF, trailing '
+    'blanks unsigned, final line ending unsigned) + verifier accept PGPy\'s signatures; PGPy verifies reference-made cleartext messages and returns their text.',
+    'Trusted: refpgp.armor section 7 implementation, refpgp.sig. Lone-CR texts only take part in the round-trip clause; a lone CR at the very end of the text is not compared.',
+    'DESIGN.md 4/C11')
